@@ -27,6 +27,14 @@ func MapSnapshot(m map[string]string) string {
 // the canonical result. shared is the map object to use for the "shared" form.
 // The second result reports a violation of O3 (caller's map modified), if any.
 func DoCall(k *Key, form string, shared map[string]string, h Hooks) (result string, mapViolation string) {
+	result, mapViolation, _ = DoCallKeep(k, form, shared, h)
+	return
+}
+
+// DoCallKeep is DoCall that also returns a function re-rendering the raw values the call returned
+// (token slices, syntax trees, strings). Calling it later — after other calls have run — must give
+// the same text: results must not alias state that later calls overwrite.
+func DoCallKeep(k *Key, form string, shared map[string]string, h Hooks) (result string, mapViolation string, again func() string) {
 	var opts *pql.CompileOptions
 	var watched map[string]string
 	usePkgFunc := false
@@ -78,22 +86,35 @@ func DoCall(k *Key, form string, shared map[string]string, h Hooks) (result stri
 			} else {
 				sql, err = opts.Compile(k.Source)
 			}
-			if err != nil {
-				result = fmt.Sprintf("ERR(sql=%q): %s", sql, err.Error())
-			} else {
-				result = "OK: " + sql
+			render := func() string {
+				if err != nil {
+					return fmt.Sprintf("ERR(sql=%q): %s", sql, err.Error())
+				}
+				return "OK: " + sql
 			}
+			result = render()
+			again = render
 		case "parse":
 			stmts, err := parser.Parse(k.Source)
-			es := "<nil>"
-			if err != nil {
-				es = err.Error()
+			render := func() string {
+				es := "<nil>"
+				if err != nil {
+					es = err.Error()
+				}
+				return "PARSE err=" + es + " stmts=" + Dump(stmts)
 			}
-			result = "PARSE err=" + es + " stmts=" + Dump(stmts)
+			result = render()
+			again = render
 		case "scan":
-			result = "SCAN " + Dump(parser.Scan(k.Source))
+			toks := parser.Scan(k.Source)
+			render := func() string { return "SCAN " + Dump(toks) }
+			result = render()
+			again = render
 		case "split":
-			result = "SPLIT " + Dump(parser.SplitStatements(k.Source))
+			parts := parser.SplitStatements(k.Source)
+			render := func() string { return "SPLIT " + Dump(parts) }
+			result = render()
+			again = render
 		default:
 			panic("c14sim: unknown api " + k.API)
 		}
@@ -103,7 +124,7 @@ func DoCall(k *Key, form string, shared map[string]string, h Hooks) (result stri
 			mapViolation = fmt.Sprintf("parameter map before %s after %s", before, after)
 		}
 	}
-	return result, mapViolation
+	return result, mapViolation, again
 }
 
 // panicSite extracts the first library frame of a stack trace (stable across processes: no addresses).
